@@ -37,6 +37,7 @@ def run(ctx):
             bad_ids.append("PNP0A08"[:pos] + ch + "PNP0A08"[pos + 1:])
             bad_ids.append("ACPI000"[:pos] + ch + "ACPI000"[pos + 1:])
     bad_ids += ["P\u00e90501", "\u20ac0501", "\u00e9\u00e9123", "AB\u00e9012", "PN\u00e90A0", "PNP0A0\u00e9", "\u00e9NP0A08", "PNP\u00e9A8", "PNP0A08\u00e9"]    # non-ASCII characters, some with byte length 7
+    bad_ids += amlgen.hostile_variants("PNP0A08") + amlgen.hostile_variants("INT0800", positions=range(0, 4)) + amlgen.hostile_variants("FIS5FF0", positions=range(0, 4))
     uu = set()
     base = "aabbccdd-eeff-0123-4567-89abcdef0123"
     for pos in range(36):
@@ -58,6 +59,7 @@ def run(ctx):
             for ch in (nonhex if pos in (0, 1, 7, 9, 12, 14, 19, 24, 34, 35) else "g-+ G"):
                 bad_uu.append(base[:pos] + ch + base[pos + 1:])
     bad_uu += [base[:5] + "\u00e9" + base[6:], base[:34] + "\u00e9", "\u00e9" + base[2:], base[:8] + "\u00e9" + base[10:]]
+    bad_uu += amlgen.hostile_variants(base) + amlgen.hostile_variants("AABBCCDD-EEFF-0123-4567-89ABCDEF0123", positions=(0, 8, 9, 13, 14, 23, 24, 35, 36))
     progs = []
     for what, lst in (("eisa", ids + bad_ids), ("uuid", uu + bad_uu)):
         for i in range(0, len(lst), 512):
